@@ -18,7 +18,7 @@ use std::time::Duration;
 pub const META: Meta = Meta {
     id: "C18",
     level: "fault_enumeration",
-    rule: "Real files in a scratch directory: sizes {0,1,65535,65536,65537,131072,200001} x every range whose ends lie on, one before or one after each 64 KiB read boundary (plus 0, 1, size-1, size; empty and whole ranges) read through get_range and through serve() with a Range header; truncation of the file to each of {0, start, start+1, a boundary-1, a boundary, end-1} between construction and poll k for every k; growth after construction; metadata and ETag under re-open, under metadata-only inode operations in a later wall-clock second (chmod, hard link, rename and back, the same mtime re-applied: same tag), append, set_modified(+-1 ns, +-1 s), replacement by a same-length same-mtime file; directories and /dev/null as non-regular files; two or three streams of one entity polled alternately; histories on one instance (a stream read to the end, truncation, a second stream); ranges of 2^32 bytes and more on sparse files (first chunks); whole sparse files of 64-100 MiB (thorough 1 GiB) read to the end (over a thousand reads of one stream). Oracle: std::fs (file bytes, Metadata), non-empty chunks, clean end or an error (never a short clean end, never an empty chunk) within a poll budget owned by the harness. Non-trivial = range crossing a 64 KiB boundary, or a truncation that hits mid-stream; distinct by fingerprint of case.",
+    rule: "Real files in a scratch directory: sizes {0,1,65535,65536,65537,131072,200001} x every range whose ends lie on, one before or one after each 64 KiB read boundary (plus 0, 1, size-1, size; empty and whole ranges) read through get_range and through serve() with a Range header; truncation of the file to each of {0, start, start+1, a boundary-1, a boundary, end-1} between construction and poll k for every k; growth after construction; metadata and ETag under re-open, under metadata-only inode operations in a later wall-clock second (chmod, hard link, rename and back, the same mtime re-applied: same tag), append, set_modified(+-1 ns, +-1 s), pairs of times whose seconds and nanoseconds spell the same digits when run together in hex or decimal (the tag must keep them apart), replacement by a same-length same-mtime file; directories and /dev/null as non-regular files; two or three streams of one entity polled alternately; histories on one instance (a stream read to the end, truncation, a second stream); ranges of 2^32 bytes and more on sparse files (first chunks); whole sparse files of 64-100 MiB (thorough 1 GiB) read to the end (over a thousand reads of one stream). Oracle: std::fs (file bytes, Metadata), non-empty chunks, clean end or an error (never a short clean end, never an empty chunk) within a poll budget owned by the harness. Non-trivial = range crossing a 64 KiB boundary, or a truncation that hits mid-stream; distinct by fingerprint of case.",
     assumptions: &[
         "sandbox filesystem semantics (regular files give full reads; running as root, permission errors are not explored)",
         "an ETag difference after a metadata change is demanded only when std::fs::Metadata itself reports the change",
@@ -667,6 +667,56 @@ fn pre_epoch_checks(dir: &Path, size: u64, secs: u64, nanos: u32, acc: &mut Acc)
     Ok(())
 }
 
+/// Pairs of modification times whose (seconds, nanoseconds) spell the same digit string when written
+/// one after the other without a separator, in hexadecimal or in decimal: the tags must differ.
+fn mtime_collision_checks(dir: &Path, size: u64, acc: &mut Acc) -> Check {
+    let p = dir.join("c");
+    write_file(&p, size);
+    let mut pairs: Vec<((u64, u32), (u64, u32))> = Vec::new();
+    for (digits, radix) in [("bbbbbbb1abcdef0", 16u32), ("5f5e1001abc123", 16), ("6123456789abcd", 16), ("1612345678912345", 10), ("99123456712345678", 10), ("1700000001230000", 10)] {
+        for i in 6..digits.len().saturating_sub(1) {
+            for j in i + 1..digits.len().min(i + 3) {
+                let parse = |a: &str, b: &str| -> Option<(u64, u32)> {
+                    if b.starts_with('0') || a.starts_with('0') {
+                        return None;
+                    }
+                    let s = u64::from_str_radix(a, radix).ok()?;
+                    let n = u64::from_str_radix(b, radix).ok()?;
+                    (s < (1 << 34) && n < 1_000_000_000).then_some((s, n as u32))
+                };
+                if let (Some(x), Some(y)) = (parse(&digits[..i], &digits[i..]), parse(&digits[..j], &digits[j..])) {
+                    pairs.push((x, y));
+                }
+            }
+        }
+    }
+    let mut seen = 0;
+    for (a, b) in pairs {
+        let mut tags = Vec::new();
+        for (s, n) in [a, b] {
+            let t = std::time::UNIX_EPOCH + Duration::new(s, n);
+            if File::options().write(true).open(&p).unwrap().set_modified(t).is_err() || std::fs::metadata(&p).unwrap().modified().unwrap() != t {
+                tags.clear();
+                break;
+            }
+            tags.push(etag_of(&p)?.0);
+        }
+        if tags.len() == 2 {
+            seen += 1;
+            ensure!(
+                tags[0] != tags[1],
+                "etag-insensitive:mtime-digits-run-together",
+                "modification times {a:?} and {b:?} (seconds, nanoseconds) give the same ETag {:?}",
+                crate::util::show_bytes(&tags[0])
+            );
+        }
+    }
+    if seen > 0 {
+        acc.note("metadata:mtime-digit-collisions", true, size * 1000 + 999, || json!({"size": size, "pairs": seen}));
+    }
+    Ok(())
+}
+
 fn nonregular_checks(dir: &Path, acc: &mut Acc) -> Check {
     for (name, path) in [("directory", dir.to_path_buf()), ("dev-null", PathBuf::from("/dev/null"))] {
         let f = File::open(&path).expect("open non-regular");
@@ -877,6 +927,10 @@ pub fn run(cx: &Cx) -> Acc {
             let case = json!({"pre_epoch": [size, secs, nanos]});
             acc.run_case(cx, "metadata", &case, |acc| pre_epoch_checks(&scratch.dir, size, secs, nanos, acc));
         }
+        if size == 1 || size == 65536 {
+            let case = json!({"mtime_collisions": size});
+            acc.run_case(cx, "metadata", &case, |acc| mtime_collision_checks(&scratch.dir, size, acc));
+        }
         if size == 0 {
             let case = json!({"nonregular": true});
             acc.run_case(cx, "metadata", &case, |acc| nonregular_checks(&scratch.dir, acc));
@@ -892,6 +946,9 @@ pub fn replay(_cx: &Cx, _phase: &str, case: &Value, acc: &mut Acc) -> Check {
     }
     if case.get("nonregular").is_some() {
         return nonregular_checks(&scratch.dir, acc);
+    }
+    if let Some(v) = case.get("mtime_collisions") {
+        return mtime_collision_checks(&scratch.dir, v.as_u64().unwrap_or(1), acc);
     }
     if let Some(v) = case.get("pre_epoch") {
         return pre_epoch_checks(&scratch.dir, v[0].as_u64().unwrap_or(0), v[1].as_u64().unwrap_or(0), v[2].as_u64().unwrap_or(0) as u32, acc);
